@@ -30,10 +30,25 @@ class Node:
         return f"Node{self.children!r}"
 
 
+class BadNode:
+    """A registered node whose flatten function raises: JAX cannot flatten a tree holding it."""
+
+    def __init__(self, *children):
+        self.children = tuple(children)
+
+
+def _bad_flatten(n):
+    raise RuntimeError("BadNode cannot be flattened")
+
+
 def register_node():
     import jax.tree_util as jtu
     try:
         jtu.register_pytree_node(Node, lambda n: (n.children, None), lambda aux, ch: Node(*ch))
+    except ValueError:
+        pass
+    try:
+        jtu.register_pytree_node(BadNode, _bad_flatten, lambda aux, ch: BadNode(*ch))
     except ValueError:
         pass
 
